@@ -36,6 +36,7 @@ type target struct {
 	out   string   // Lean module name under GoSSE.Gen
 	joins bool     // code after an `if` that both branches reach becomes a definition of its own when it is more than one statement
 	prune []string // structs declared with only the fields the target's functions select (the others: Unit)
+	opaque []string // callees that stay outside: each becomes a parameter `<name>P` of the translated function that calls it
 }
 
 var targets = []target{
@@ -68,6 +69,8 @@ var targets = []target{
 	{dir: ".", files: []string{"message.go", "message_fields.go", "session.go"}, funcs: []string{"Session.doUpgrade", "Session.Send", "Session.Flush"}, out: "Session", joins: true},
 	// the other construction routes of an ID / type: database/sql, encoding/json, text
 	{dir: ".", files: []string{"message.go", "message_fields.go"}, funcs: []string{"messageField.Scan", "messageField.UnmarshalJSON", "messageField.MarshalText"}, out: "FieldRoutes"},
+	// sse.Upgrade: which writer the session gets is getResponseWriter's answer (a parameter), the Last-Event-ID header
+	{dir: ".", files: []string{"message.go", "message_fields.go", "session.go"}, funcs: []string{"Upgrade"}, out: "Upgrade", opaque: []string{"getResponseWriter"}},
 	// Server.Publish's topic defaulting
 	{dir: ".", files: []string{"server.go"}, funcs: []string{"getTopics"}, out: "Server"},
 	// what a reconnection attempt does to the request: the body re-obtained, the Last-Event-ID header set or removed
@@ -110,6 +113,8 @@ type tr struct {
 	sigmaStructs   map[string]bool       // structs with a MessageWriter inside: structure S (σ : Type)
 	phiStructs     map[string]bool       // structs with a float64 inside: structure S (φ : Type)
 	pruned         map[string]map[string]bool // structs declared with only the fields the target's functions select (the rest: Unit)
+	opaque         map[string]bool            // callees of this target that are parameters of their callers
+	opaqueParams   []string                   // … of the current function: binders to add
 	nowParam       bool                  // the current function reads the clock once: parameter (now : Int)
 	extraTy        map[*types.Var]string // Lean types of synthetic variables (the accumulator of an iterator)
 	yieldVar       *types.Var            // in an iterator: the yield parameter …
@@ -222,6 +227,12 @@ func (t *tr) leanType(ty types.Type, at ast.Node) string {
 		}
 		if u.Obj().Pkg() != nil && u.Obj().Pkg().Path() == "net/http" && u.Obj().Name() == "Request" {
 			return "HttpReq" // GoRT.HttpReq: body, GetBody, header
+		}
+		if u.Obj().Pkg() != nil && u.Obj().Pkg().Path() == "net/http" && u.Obj().Name() == "ResponseWriter" {
+			return "HttpRW" // an http.ResponseWriter of whatever dynamic type: an opaque identity (GoRT.HttpRW)
+		}
+		if u.Obj().Pkg() != nil && u.Obj().Pkg().Path() == "net/http" && u.Obj().Name() == "Header" {
+			return "(List (Bytes × List Bytes))"
 		}
 		if u.Obj().Pkg() != nil && u.Obj().Pkg().Path() == "io" && u.Obj().Name() == "ReadCloser" {
 			return "BodyV" // a request body: nil, http.NoBody, or a reader identified by a tag
@@ -717,6 +728,14 @@ func (t *tr) expr(e *em, x ast.Expr) string {
 			return n
 		}
 		if id, ok := v.Y.(*ast.Ident); ok && id.Name == "nil" && (v.Op == token.EQL || v.Op == token.NEQ) {
+			if xi, ok := v.X.(*ast.Ident); ok {
+				if o, ok := t.info.Uses[xi].(*types.Var); ok && t.nilable[o] && t.isResW(o.Type()) {
+					if v.Op == token.NEQ {
+						return "(" + t.nameOf(o) + ").isSome"
+					}
+					return "(" + t.nameOf(o) + ").isNone"
+				}
+			}
 			if n, ok := t.info.Types[v.X].Type.(*types.Named); ok && n.Obj().Pkg() != nil && n.Obj().Pkg().Path() == "io" && n.Obj().Name() == "ReadCloser" {
 				if v.Op == token.NEQ {
 					return "(" + t.expr(e, v.X) + " != BodyV.nil)"
@@ -807,6 +826,11 @@ func (t *tr) expr(e *em, x ast.Expr) string {
 		}
 		die(t.pos(x), "binary %s on %s", v.Op, lt)
 	case *ast.IndexExpr:
+		if tv, ok := t.info.Types[v.X]; ok {
+			if hn, ok := tv.Type.(*types.Named); ok && hn.Obj().Pkg() != nil && hn.Obj().Pkg().Path() == "net/http" && hn.Obj().Name() == "Header" {
+				return "(headerGet " + t.expr(e, v.X) + " " + t.expr(e, v.Index) + ")" // h[key]: the values stored under exactly that key
+			}
+		}
 		s, i := t.expr(e, v.X), t.expr(e, v.Index)
 		n := t.fresh("b")
 		e.line("let %s ← idx %s %s", n, s, i)
@@ -856,6 +880,16 @@ func (t *tr) expr(e *em, x ast.Expr) string {
 				f, val = fieldByName(kv.Key.(*ast.Ident).Name), kv.Value
 			}
 			_, ptrField := f.Type().(*types.Pointer)
+			if vi, ok := val.(*ast.Ident); ok && !ptrField {
+				if o, ok := t.info.Uses[vi].(*types.Var); ok && t.nilable[o] && t.isResW(o.Type()) {
+					// an interface value that may be nil stored where the translated struct holds a plain one: nil panics here
+					// (stricter than Go, where the panic would come at the first method call)
+					d := t.fresh("p")
+					e.line("let %s ← derefPtr %s", d, t.nameOf(o))
+					vals[f.Name()] = d
+					continue
+				}
+			}
 			vals[f.Name()] = t.optExpr(e, val, ptrField)
 		}
 		return t.structLit(n, st, vals, x)
@@ -1273,6 +1307,19 @@ func (t *tr) call(e *em, v *ast.CallExpr) string {
 				}
 			}
 		}
+	}
+	if t.opaque[fn] {
+		// a callee that stays outside the translation: its answer is a parameter of this function (any function of the
+		// arguments stands for it); a result of interface / pointer type may be nil
+		sig := t.info.Types[v.Fun].Type.(*types.Signature)
+		if sig.Results().Len() != 1 {
+			die(t.pos(v), "opaque callee %s with %d results", fn, sig.Results().Len())
+		}
+		var args []string
+		for _, a := range v.Args {
+			args = append(args, t.expr(e, a))
+		}
+		return "(" + fn + "P " + strings.Join(args, " ") + ")"
 	}
 	if !t.known[fn] {
 		die(t.pos(v), "call of %s (not translated)", name)
@@ -2074,6 +2121,11 @@ func (t *tr) optExpr(e *em, x ast.Expr, wantOpt bool) string {
 	}
 	if t.isOptPtr(x) {
 		return t.expr(e, x) // a pointer-typed field: an Option already
+	}
+	if c, ok := x.(*ast.CallExpr); ok {
+		if id, ok := c.Fun.(*ast.Ident); ok && t.opaque[id.Name] {
+			return t.expr(e, x) // the answer of a callee outside the translation: an Option already
+		}
 	}
 	return "(some " + t.expr(e, x) + ")"
 }
@@ -2980,6 +3032,15 @@ func (t *tr) findNilable(fd *ast.FuncDecl, sig *types.Signature) {
 			// x, err := f(…) where f's result may be nil
 			if len(v.Rhs) == 1 {
 				if c, ok := v.Rhs[0].(*ast.CallExpr); ok {
+					if id, ok := c.Fun.(*ast.Ident); ok && t.opaque[id.Name] {
+						for _, l := range v.Lhs {
+							if li, ok := l.(*ast.Ident); ok {
+								if o, ok := t.info.ObjectOf(li).(*types.Var); ok {
+									t.nilable[o] = true // the answer of a callee outside the translation may be nil
+								}
+							}
+						}
+					}
 					if id, ok := c.Fun.(*ast.Ident); ok {
 						if fs := t.sigs[id.Name]; fs != nil {
 							for i, l := range v.Lhs {
@@ -3238,6 +3299,31 @@ func (t *tr) function(out *em, fd *ast.FuncDecl, leanName string) {
 	}
 	if t.usesJSON(fd.Body) {
 		params = append(params, "(jsonDecode : Bytes → Option Bytes)") // what json.Unmarshal(data, &string) decodes (none = an error)
+	}
+	// callees that stay outside the translation: parameters
+	seenOpaque := map[string]bool{}
+	ast.Inspect(fd.Body, func(n ast.Node) bool {
+		c, ok := n.(*ast.CallExpr)
+		if !ok {
+			return true
+		}
+		id, ok := c.Fun.(*ast.Ident)
+		if !ok || !t.opaque[id.Name] || seenOpaque[id.Name] {
+			return true
+		}
+		seenOpaque[id.Name] = true
+		osig := t.info.Types[c.Fun].Type.(*types.Signature)
+		var atys []string
+		for i := 0; i < osig.Params().Len(); i++ {
+			atys = append(atys, t.leanType(osig.Params().At(i).Type(), c))
+		}
+		params = append(params, fmt.Sprintf("(%sP : %s → (Option %s))", id.Name, strings.Join(atys, " → "), t.leanType(osig.Results().At(0).Type(), c)))
+		return true
+	})
+	for _, p := range params {
+		if strings.Contains(p, "σ") && !strings.Contains(tps, "{σ : Type}") {
+			tps += "{σ : Type} "
+		}
 	}
 	if iterLit != nil {
 		tps += "{κ : Type} "
@@ -3574,6 +3660,10 @@ func main() {
 					decls[name] = fd
 				}
 			}
+		}
+		t.opaque = map[string]bool{}
+		for _, on := range tg.opaque {
+			t.opaque[on] = true
 		}
 		t.pruned = map[string]map[string]bool{}
 		for _, pn := range tg.prune {
